@@ -15,12 +15,20 @@ from ..common import Ctx
 MODULES = ["Ahbicht.Properties.C17"]
 
 
+def _near_miss(rng, qs):
+    """an input that resembles the offered qualifiers without being one: a piece of one, two of them joined, different case, padded"""
+    if not qs:
+        return "Q"
+    q = rng.choice(qs)
+    return rng.choice([q[:-1], q[1:], q[:1], q + " ", " " + q, q.lower(), q + q, ", ".join(qs[:2]), ", ", q + ",", ",".join(qs)])
+
+
 def run(ctx: Ctx) -> None:
     from ahbicht.models.validation_values import RequirementValidationValue as R
     from ahbicht.validation.validation import validate_data_element_valuepool
 
     ctx.rule = ("value pools of size 0-6 with entry expressions that are fulfilled / unfulfilled / undetermined / invalid, duplicate qualifiers, inputs absent / empty / "
-                "offered / in the pool but not offered / not in the pool, parent statuses required / optional / forbidden; distinct = (pool, input, parent, content result)")
+                "offered / in the pool but not offered / not in the pool / near misses (pieces, joins, padding, case of offered qualifiers; one qualifier a prefix of another), parent statuses required / optional / forbidden; distinct = (pool, input, parent, content result)")
     ctx.coverage["generated_changed"] = extract.regenerate(["Validation"])
     ok = ctx.lean_build(MODULES)
     drv = ctx.lean_build_driver()
@@ -37,7 +45,9 @@ def run(ctx: Ctx) -> None:
         n = rng.choice([0, 1, 1, 2, 2, 3, 3, 4, 6])
         qs = [f"Z{rng.randint(1, 5):02d}" if rng.random() < 0.3 else f"Q{j}" for j in range(n)]
         entries = [{"q": q, "m": f"meaning {j}", "expr": g.expr()} for j, q in enumerate(qs)]
-        inp = rng.choice([None, "", "nope", rng.choice(qs) if qs else "Q0", rng.choice(qs) if qs else None])
+        if n >= 2 and rng.random() < 0.25:
+            qs[1] = qs[0] + str(rng.randint(0, 9))  # one qualifier is a prefix of another (Z1 / Z13)
+        inp = rng.choice([None, "", "nope", rng.choice(qs) if qs else "Q0", rng.choice(qs) if qs else None, _near_miss(rng, qs)])
         parent = rng.choice(["IS_REQUIRED", "IS_REQUIRED", "IS_OPTIONAL", "IS_FORBIDDEN"])
         spec = {"t": "pool", "disc": f"vp{i}", "entries": entries, "input": inp}
         V.set_cer(cer)
